@@ -126,6 +126,35 @@ Section ValInd.
     end.
 End ValInd.
 
+Scheme expr_mut := Induction for expr Sort Prop
+  with keys_mut := Induction for keys Sort Prop.
+Combined Scheme expr_keys_ind from expr_mut, keys_mut.
+
+Lemma map_VInt_rn : forall f rs, map (rn_val f) (map VInt rs) = map VInt rs.
+Proof. intros f rs. induction rs as [|r rs IH]; cbn; [reflexivity | rewrite IH; reflexivity]. Qed.
+
+Lemma eval_ELookup : forall p1 p2 d cf self row env one t ks ob,
+  eval p1 p2 d cf self row env (ELookup one t ks ob) =
+  rbind (eval_keys p1 p2 d cf self row env ks) (fun kvs =>
+  rbind (rows_of d t) (fun rows =>
+  rbind (rfilter (fun r => row_matches cf t r kvs) rows) (fun m =>
+  rbind (sort_rows cf t ob m) (fun s => ROk (if one then VRec t (hd 0 s) else VRecs t s))))).
+Proof. reflexivity. Qed.
+
+Lemma eval_keys_KCons : forall p1 p2 d cf self row env k e ks,
+  eval_keys p1 p2 d cf self row env (KCons k e ks) =
+  rbind (eval p1 p2 d cf self row env e) (fun v =>
+  rbind (eval_keys p1 p2 d cf self row env ks) (fun t => ROk ((k, v) :: t))).
+Proof. reflexivity. Qed.
+
+Lemma ren_ELookup : forall rt rc d self G one t ks ob,
+  ren rt rc d self G (ELookup one t ks ob) = ELookup one (rt t) (ren_keys rt rc d self G t ks) (rn_ob rc t ob).
+Proof. reflexivity. Qed.
+
+Lemma ren_keys_KCons : forall rt rc d self G t k e ks,
+  ren_keys rt rc d self G t (KCons k e ks) = KCons (rc t k) (ren rt rc d self G e) (ren_keys rt rc d self G t ks).
+Proof. reflexivity. Qed.
+
 (* has_tab v T: if v is a record (set) at all, it is one of table T *)
 Definition has_tab (v : val) (T : name) : Prop :=
   match v with VRec t _ => t = T | VRecs t _ => t = T | _ => True end.
@@ -255,14 +284,289 @@ Section Equiv.
     assert (Hg : find_col (rtab d tb) GROUP = option_map (rcolumn d (tname tb)) (find_col tb GROUP)).
     { unfold find_col. cbn. apply find_map. intro co. cbn. apply group_stable. }
     rewrite Hg. destruct (find_col tb GROUP) as [co|]; [|reflexivity]. cbn.
-    destruct (ctype co) as [|u|u]; cbn; try reflexivity.
-    - destruct (cformula co) as [f|]; cbn; [|reflexivity]. destruct (ren rn_tab rn_col d (tname tb) [] f); reflexivity.
-    - destruct (cformula co) as [f|]; cbn; [|reflexivity].
-      destruct f; cbn; reflexivity.
+    destruct (ctype co) as [|u|u]; destruct (cformula co) as [f|]; try reflexivity; destruct f; reflexivity.
   Qed.
 
   Lemma rows_of_rn : forall t, rows_of (rdoc d) (rn_tab t) = rows_of d t.
   Proof.
     intro t. unfold rows_of, rename_doc. rewrite find_table_rn. destruct (find_table d t); reflexivity.
   Qed.
+
+  (* ---- evaluation, given that the cell function is equivariant and respects column types ---- *)
+  Variable cellf cellf' : name -> Z -> name -> R val.
+  Hypothesis Hcell : forall t r c, cellf' (rn_tab t) r (rn_col t c) = rr (cellf t r c).
+  Hypothesis Hsound : forall t r c u v, col_target d t c = Some u -> cellf t r c = ROk v -> has_tab v u.
+
+  Notation ev := (eval prim1 prim2 d cellf).
+  Notation ev' := (eval prim1 prim2 (rdoc d) cellf').
+  Notation renv := (map (fun p : name * val => (fst p, rv (snd p)))).
+
+  Lemma keyvals_rn : forall (t : name) (r : Z) (cs : list name),
+    rmap (fun c => cellf' (rn_tab t) r c) (map (rn_col t) cs) = rfmap (map rv) (rmap (fun c => cellf t r c) cs).
+  Proof.
+    intros t r cs. rewrite rmap_map. apply rmap_fmap. intros c _. rewrite <- rr_fmap. apply Hcell.
+  Qed.
+
+  Lemma sort_rows_rn : forall t ob rows,
+    sort_rows cellf' (rn_tab t) (rn_ob rn_col t ob) rows = sort_rows cellf t ob rows.
+  Proof.
+    intros t ob rows. unfold sort_rows, rn_ob.
+    set (g := fun x : list val * Z => (map rv (fst x), snd x)).
+    rewrite (rmap_fmap g (fun r => rbind (rmap (fun p => cellf t r (snd p)) ob) (fun kv => ROk (kv, r)))).
+    - rewrite rbind_fmap. apply rbind_ext. intros keyed _. f_equal.
+      rewrite map_map. cbn [fst].
+      rewrite (sort_by_map g (fun a b => key_lt (map fst ob) (fst a) (fst b))).
+      + rewrite map_map. reflexivity.
+      + intros a b. unfold g. cbn [fst]. apply key_lt_rv.
+    - intros r _. rewrite rmap_map. cbn [snd].
+      rewrite (rmap_fmap rv (fun p => cellf t r (snd p))).
+      + destruct (rmap (fun p => cellf t r (snd p)) ob); reflexivity.
+      + intros p _. rewrite <- rr_fmap. apply Hcell.
+  Qed.
+
+  Lemma row_matches_rn : forall t r kvs,
+    row_matches cellf' (rn_tab t) r (map (fun kv => (rn_col t (fst kv), rv (snd kv))) kvs) = row_matches cellf t r kvs.
+  Proof.
+    intros t r kvs. unfold row_matches. rewrite rmap_map. cbn [fst snd]. f_equal.
+    apply rmap_ext. intros kv _. rewrite Hcell. destruct (cellf t r (fst kv)); cbn; [|reflexivity].
+    rewrite key_eqb_rv. reflexivity.
+  Qed.
+
+  Lemma attr_rn : forall v T c, has_tab v T ->
+    attr (rdoc d) cellf' (rv v) (rn_col T c) = rr (attr d cellf v c).
+  Proof.
+    intros v T c Ht. destruct v as [| | |t r|t rs|]; try reflexivity; cbn in Ht; subst t; cbn [rn_val attr].
+    - apply Hcell.
+    - rewrite (rmap_fmap rv (fun r => cellf T r c)) by (intros r _; rewrite <- rr_fmap; apply Hcell).
+      rewrite col_target_rn. destruct (rmap (fun r => cellf T r c) rs) as [vs|]; cbn; [|reflexivity].
+      destruct (col_target d T c); cbn; [rewrite flat_ids_rv|]; reflexivity.
+  Qed.
+
+  Lemma infer_sound : forall e self G env row v T,
+    env_ok G env -> infer d self G e = Some T -> ev self row env e = ROk v -> has_tab v T.
+  Proof.
+    induction e; intros self G env row v T Hok Hinf Hev; cbn in Hinf; try discriminate.
+    - inversion Hinf; subst. cbn in Hev. inversion Hev; subst. reflexivity.
+    - cbn in Hev. destruct (lookup_env x G) as [o|] eqn:HG; [|discriminate]. subst o.
+      destruct (lookup_env x env) as [v0|] eqn:He; [|discriminate]. inversion Hev; subst.
+      eapply Hok; eauto.
+    - cbn in Hev. eapply Hsound; eauto.
+    - destruct (infer d self G e) as [t1|] eqn:H1; [|discriminate]. cbn in Hev.
+      apply rbind_ok in Hev. destruct Hev as [v1 [Hv1 Hattr]].
+      pose proof (IHe self G env row v1 t1 Hok H1 Hv1) as Ht.
+      destruct v1 as [| | |t r|t rs|]; cbn in Hattr; try discriminate; cbn in Ht; subst t.
+      + eapply Hsound; eauto.
+      + apply rbind_ok in Hattr. destruct Hattr as [vs [_ Hr]]. rewrite Hinf in Hr. inversion Hr; subst. reflexivity.
+    - inversion Hinf; subst. cbn in Hev.
+      apply rbind_ok in Hev. destruct Hev as [? [_ Hev]]. apply rbind_ok in Hev. destruct Hev as [? [_ Hev]].
+      apply rbind_ok in Hev. destruct Hev as [? [_ Hev]]. apply rbind_ok in Hev. destruct Hev as [? [_ Hev]].
+      inversion Hev; subst. destruct one; reflexivity.
+    - inversion Hinf; subst. cbn in Hev. apply rbind_ok in Hev. destruct Hev as [? [_ Hev]].
+      inversion Hev; subst. reflexivity.
+    - cbn in Hev. apply rbind_ok in Hev. destruct Hev as [v1 [Hv1 Hev]].
+      pose proof (IHe self G env row v1 T Hok Hinf Hv1) as Ht.
+      destruct v1 as [| | |t r| |]; try discriminate. cbn in Ht. subst t.
+      apply rbind_ok in Hev. destruct Hev as [? [_ Hev]]. apply rbind_ok in Hev. destruct Hev as [? [_ Hev]].
+      apply rbind_ok in Hev. destruct Hev as [? [_ Hev]]. apply rbind_ok in Hev. destruct Hev as [s [_ Hev]].
+      inversion Hev; subst. unfold prevnext. destruct (index_of r s 0) as [i|]; [|reflexivity].
+      destruct (w =? 0); [destruct i; reflexivity|]. destruct (w =? 1); reflexivity.
+  Qed.
+
+  Lemma comp_elems_typed : forall src self env row v vs T el,
+    comp_type src = Some T -> ev self row env src = ROk v -> elems v = ROk vs -> In el vs -> has_tab el T.
+  Proof.
+    intros src self env row v vs T el Hc Hev Hel Hin. destruct src; cbn in Hc; try discriminate; inversion Hc; subst.
+    - cbn in Hev.
+      apply rbind_ok in Hev. destruct Hev as [? [_ Hev]]. apply rbind_ok in Hev. destruct Hev as [? [_ Hev]].
+      apply rbind_ok in Hev. destruct Hev as [? [_ Hev]]. apply rbind_ok in Hev. destruct Hev as [s [_ Hev]].
+      inversion Hev; subst. destruct one; cbn in Hel; [discriminate|]. inversion Hel; subst.
+      apply in_map_iff in Hin. destruct Hin as [r [E _]]. subst. reflexivity.
+    - cbn in Hev. apply rbind_ok in Hev. destruct Hev as [rows [_ Hev]]. inversion Hev; subst.
+      cbn in Hel. inversion Hel; subst. apply in_map_iff in Hin. destruct Hin as [r [E _]]. subst. reflexivity.
+  Qed.
+
+  Lemma env_ok_cons : forall G env x o el,
+    env_ok G env -> (forall T, o = Some T -> has_tab el T) -> env_ok ((x, o) :: G) ((x, el) :: env).
+  Proof.
+    intros G env x o el Hok Hel y T v HG He. cbn in HG, He. destruct (name_eqb x y).
+    - inversion HG; inversion He; subst. apply Hel. reflexivity.
+    - eapply Hok; eauto.
+  Qed.
+
+  Definition rkv (t : name) (kv : name * val) : name * val := (rn_col t (fst kv), rv (snd kv)).
+
+  Lemma eval_rn_mut :
+    (forall e self G env row, env_ok G env -> wf_static d self G e = true ->
+       ev' (rn_tab self) row (renv env) (ren rn_tab rn_col d self G e) = rr (ev self row env e)) /\
+    (forall ks self G env row t, env_ok G env -> wf_keys d self G ks = true ->
+       eval_keys prim1 prim2 (rdoc d) cellf' (rn_tab self) row (renv env) (ren_keys rn_tab rn_col d self G t ks)
+       = rfmap (map (rkv t)) (eval_keys prim1 prim2 d cellf self row env ks)).
+  Proof.
+    apply expr_keys_ind.
+    - (* EInt *) intros; reflexivity.
+    - (* EStr *) intros; reflexivity.
+    - (* ENone *) intros; reflexivity.
+    - (* ERec *) intros; reflexivity.
+    - (* EVar *) intros x self G env row _ _. cbn. rewrite lookup_env_rv. destruct (lookup_env x env); reflexivity.
+    - (* EDollar *) intros c self G env row _ _. cbn. apply Hcell.
+    - (* ECol *) intros e IH c self G env row Hok Hwf. cbn in Hwf. apply andb_true_iff in Hwf. destruct Hwf as [Hwf Hi].
+      destruct (infer d self G e) as [T|] eqn:Hinf; [|discriminate].
+      cbn [ren eval]. rewrite Hinf. cbn [rn_opt_col]. rewrite (IH self G env row Hok Hwf).
+      destruct (ev self row env e) as [v|k] eqn:Hev; [|reflexivity]. cbn [rn_res rbind].
+      apply attr_rn. eapply infer_sound; eauto.
+    - (* EId *) intros e IH self G env row Hok Hwf. cbn in Hwf. cbn [ren eval]. rewrite (IH self G env row Hok Hwf).
+      destruct (ev self row env e) as [v|k]; [|reflexivity]. destruct v; try reflexivity.
+      cbn. rewrite map_VInt_rn. reflexivity.
+    - (* ELookup *) intros one t ks IH ob self G env row Hok Hwf. cbn in Hwf. rewrite ren_ELookup, !eval_ELookup.
+      rewrite (IH self G env row t Hok Hwf).
+      destruct (eval_keys prim1 prim2 d cellf self row env ks) as [kvs|k]; [|reflexivity]. cbn [rfmap rbind].
+      rewrite rows_of_rn. destruct (rows_of d t) as [rows|k]; [|reflexivity]. cbn [rbind].
+      rewrite (rfilter_ext _ (fun r => row_matches cellf t r kvs)) by (intros r _; apply row_matches_rn).
+      destruct (rfilter (fun r => row_matches cellf t r kvs) rows) as [m|k]; [|reflexivity]. cbn [rbind].
+      rewrite sort_rows_rn. destruct (sort_rows cellf t ob m) as [s|k]; [|reflexivity]. cbn. destruct one; reflexivity.
+    - (* EAll *) intros t self G env row _ _. cbn. rewrite rows_of_rn. destruct (rows_of d t); reflexivity.
+    - (* EComp *) intros body IHb x src IHs self G env row Hok Hwf. cbn in Hwf. apply andb_true_iff in Hwf.
+      destruct Hwf as [Hws Hwb]. cbn [ren eval]. rewrite (IHs self G env row Hok Hws).
+      destruct (ev self row env src) as [v|k] eqn:Hsrc; [|reflexivity]. cbn [rn_res rbind].
+      rewrite elems_rv. destruct (elems v) as [vs|k] eqn:Hel; [|reflexivity]. cbn [rfmap rbind].
+      rewrite rmap_map.
+      rewrite (rmap_fmap rv (fun el => ev self row ((x, el) :: env) body)).
+      + destruct (rmap (fun el => ev self row ((x, el) :: env) body) vs); reflexivity.
+      + intros el Hin. rewrite <- rr_fmap.
+        apply (IHb self ((x, comp_type src) :: G) ((x, el) :: env) row); [|exact Hwb].
+        apply env_ok_cons; [exact Hok|]. intros T HT. eapply comp_elems_typed; eauto.
+    - (* ECompIf *) intros body IHb x src IHs cond IHc self G env row Hok Hwf. cbn in Hwf.
+      apply andb_true_iff in Hwf. destruct Hwf as [Hwf Hwc]. apply andb_true_iff in Hwf. destruct Hwf as [Hws Hwb].
+      cbn [ren eval]. rewrite (IHs self G env row Hok Hws).
+      destruct (ev self row env src) as [v|k] eqn:Hsrc; [|reflexivity]. cbn [rn_res rbind].
+      rewrite elems_rv. destruct (elems v) as [vs|k] eqn:Hel; [|reflexivity]. cbn [rfmap rbind].
+      rewrite rmap_map.
+      rewrite (rmap_fmap (option_map rv)
+                 (fun el => rbind (ev self row ((x, el) :: env) cond) (fun c =>
+                            if truthy c then rbind (ev self row ((x, el) :: env) body) (fun b => ROk (Some b))
+                            else ROk None))).
+      + destruct (rmap _ vs) as [out|k]; [|reflexivity]. cbn. do 2 f_equal.
+        induction out as [|o out IHo]; [reflexivity|]. destruct o; cbn; rewrite IHo; reflexivity.
+      + intros el Hin.
+        assert (Hok' : env_ok ((x, comp_type src) :: G) ((x, el) :: env)).
+        { apply env_ok_cons; [exact Hok|]. intros T HT. eapply comp_elems_typed; eauto. }
+        pose proof (IHc self _ _ row Hok' Hwc) as Ec. pose proof (IHb self _ _ row Hok' Hwb) as Eb.
+        cbn [map fst snd] in Ec, Eb. rewrite Ec.
+        destruct (ev self row ((x, el) :: env) cond) as [c|k]; [|reflexivity]. cbn [rn_res rbind rfmap].
+        rewrite truthy_rv. destruct (truthy c); [|reflexivity]. rewrite Eb.
+        destruct (ev self row ((x, el) :: env) body); reflexivity.
+    - (* EPrevNext *) intros w e IH gb ob self G env row Hok Hwf. cbn in Hwf. apply andb_true_iff in Hwf.
+      destruct Hwf as [Hwf Hi]. cbn [ren eval]. rewrite (IH self G env row Hok Hwf).
+      destruct (ev self row env e) as [v|k] eqn:Hev; [|reflexivity]. cbn [rn_res rbind].
+      destruct v as [| | |t r| |]; try reflexivity. cbn [rn_val]. rewrite rows_of_rn.
+      destruct (rows_of d t) as [rows|k]; [|reflexivity]. cbn [rbind].
+      destruct (infer d self G e) as [T|] eqn:Hinf.
+      + pose proof (infer_sound e self G env row _ T Hok Hinf Hev) as Ht. cbn in Ht. subst t.
+        cbn [rn_opt_col rn_opt_ob]. rewrite keyvals_rn. rewrite rbind_fmap.
+        destruct (rmap (fun c => cellf T r c) gb) as [mine|k]; [|reflexivity]. cbn [rbind].
+        rewrite (rfilter_ext _ (fun r' => rbind (rmap (fun c => cellf T r' c) gb)
+                                              (fun theirs => ROk (keys_eqb mine theirs)))).
+        * destruct (rfilter _ rows) as [grp|k]; [|reflexivity]. cbn [rbind]. rewrite sort_rows_rn.
+          destruct (sort_rows cellf T ob grp) as [s|k]; [|reflexivity]. cbn. rewrite prevnext_rv. reflexivity.
+        * intros r' _. rewrite keyvals_rn. rewrite rbind_fmap. apply rbind_ext. intros theirs _.
+          rewrite keys_eqb_rv. reflexivity.
+      + destruct gb; [|discriminate]. destruct ob; [|discriminate]. cbn.
+        destruct (rfilter _ rows) as [grp|k]; [|reflexivity]. cbn [rbind].
+        change (sort_rows cellf' (rn_tab t) [] grp) with (sort_rows cellf t [] grp).
+        destruct (sort_rows cellf t [] grp) as [s|k]; [|reflexivity]. cbn. rewrite prevnext_rv. reflexivity.
+    - (* EPrim1 *) intros f e IH self G env row Hok Hwf. cbn in Hwf. cbn [ren eval]. rewrite (IH self G env row Hok Hwf).
+      destruct (ev self row env e); [|reflexivity]. cbn. apply prim1_nat.
+    - (* EPrim2 *) intros f a IHa b IHb self G env row Hok Hwf. cbn in Hwf. apply andb_true_iff in Hwf.
+      destruct Hwf as [Ha Hb]. cbn [ren eval]. rewrite (IHa self G env row Hok Ha), (IHb self G env row Hok Hb).
+      destruct (ev self row env a); [|reflexivity]. destruct (ev self row env b); [|reflexivity]. cbn. apply prim2_nat.
+    - (* EIf *) intros c IHc a IHa b IHb self G env row Hok Hwf. cbn in Hwf. apply andb_true_iff in Hwf.
+      destruct Hwf as [Hwf Hb]. apply andb_true_iff in Hwf. destruct Hwf as [Hc Ha]. cbn [ren eval].
+      rewrite (IHc self G env row Hok Hc). destruct (ev self row env c) as [vc|k]; [|reflexivity]. cbn [rn_res rbind].
+      rewrite truthy_rv. destruct (truthy vc); [apply IHa | apply IHb]; assumption.
+    - (* EGroup *) intros self G env row _ _. cbn [ren eval]. rewrite summary_source_rn.
+      unfold rename_doc. rewrite find_table_rn.
+      destruct (summary_source d self); destruct (find_table d self); reflexivity.
+    - (* KNil *) intros; reflexivity.
+    - (* KCons *) intros k e IHe ks IHk self G env row t Hok Hwf. cbn in Hwf. apply andb_true_iff in Hwf.
+      destruct Hwf as [He Hk]. rewrite ren_keys_KCons, !eval_keys_KCons. rewrite (IHe self G env row Hok He), (IHk self G env row t Hok Hk).
+      destruct (ev self row env e); [|reflexivity].
+      destruct (eval_keys prim1 prim2 d cellf self row env ks); reflexivity.
+  Qed.
 End Equiv.
+
+(* ================================================================================================= *)
+Lemma wrap_has_tab : forall ty x v, wrap ty x = ROk v ->
+  match ty with CRef u => has_tab v u | CRefList u => has_tab v u | CPlain => True end.
+Proof.
+  intros ty x v H. destruct ty as [|u|u]; [exact I| |].
+  - destruct x; cbn in H; inversion H; reflexivity.
+  - destruct x as [| | | | |vs]; cbn in H; try (inversion H; reflexivity).
+    destruct (ids_of vs); inversion H; reflexivity.
+Qed.
+
+Section Cells.
+  Variable rn_tab : name -> name.
+  Variable rn_col : name -> name -> name.
+  Variable prim1 : Z -> val -> R val.
+  Variable prim2 : Z -> val -> val -> R val.
+  Hypothesis tab_inj : forall a b, name_eqb (rn_tab a) (rn_tab b) = name_eqb a b.
+  Hypothesis col_inj : forall t a b, name_eqb (rn_col t a) (rn_col t b) = name_eqb a b.
+  Hypothesis group_stable : forall t c, name_eqb (rn_col t c) GROUP = name_eqb c GROUP.
+  Hypothesis prim1_nat : forall f v, prim1 f (rn_val rn_tab v) = rn_res rn_tab (prim1 f v).
+  Hypothesis prim2_nat : forall f a b, prim2 f (rn_val rn_tab a) (rn_val rn_tab b) = rn_res rn_tab (prim2 f a b).
+  Variable d : doc.
+  Hypothesis Hwf : doc_wf d.
+
+  Notation rv := (rn_val rn_tab).
+  Notation rr := (rn_res rn_tab).
+  Notation rdoc := (rename_doc rn_tab rn_col).
+
+  Lemma cell_sound : forall n t r c u v,
+    col_target d t c = Some u -> cell prim1 prim2 d n t r c = ROk v -> has_tab v u.
+  Proof.
+    intros n t r c u v Hct Hc. destruct n; [discriminate|]. cbn [cell] in Hc. unfold col_target in Hct.
+    destruct (find_table d t) as [tb|]; [|discriminate]. destruct (find_col tb c) as [co|]; [|discriminate].
+    assert (Hw : forall x, wrap (ctype co) x = ROk v -> has_tab v u).
+    { intros x Hx. apply wrap_has_tab in Hx. destruct (ctype co); inversion Hct; subst; exact Hx. }
+    destruct (cformula co) as [f|].
+    - apply rbind_ok in Hc. destruct Hc as [x [_ Hx]]. eapply Hw; eauto.
+    - eapply Hw; eauto.
+  Qed.
+
+  Lemma data_at_rn : forall l r, data_at (map (fun p : Z * val => (fst p, rv (snd p))) l) r = rv (data_at l r).
+  Proof.
+    intros l r. unfold data_at. induction l as [|[y v] l IH]; [reflexivity|]. cbn. destruct (y =? r); [reflexivity | exact IH].
+  Qed.
+
+  Lemma cell_rn : forall n t r c,
+    cell prim1 prim2 (rdoc d) n (rn_tab t) r (rn_col t c) = rr (cell prim1 prim2 d n t r c).
+  Proof.
+    induction n as [|n IHn]; intros t r c; [reflexivity|]. cbn [cell].
+    unfold rename_doc at 1. rewrite (find_table_rn rn_tab rn_col tab_inj).
+    destruct (find_table d t) as [tb|] eqn:Ht; [|reflexivity]. cbn [option_map].
+    pose proof (find_table_name _ _ _ Ht) as En. subst t.
+    rewrite (find_col_rn rn_tab rn_col col_inj).
+    destruct (find_col tb c) as [co|] eqn:Hc; [|reflexivity]. cbn [option_map rn_column cformula ctype cdata].
+    destruct (cformula co) as [f|] eqn:Hf; cbn [option_map].
+    - destruct (eval_rn_mut rn_tab rn_col prim1 prim2 tab_inj col_inj group_stable prim1_nat prim2_nat d
+                  (cell prim1 prim2 d n) (cell prim1 prim2 (rdoc d) n) IHn (cell_sound n)) as [He _].
+      specialize (He f (tname tb) [] [] r). cbn [map] in He. rewrite He.
+      + destruct (eval prim1 prim2 d (cell prim1 prim2 d n) (tname tb) r [] f); [|reflexivity]. cbn. apply wrap_rv.
+      + intros x T v HG. discriminate.
+      + eapply Hwf; eauto using find_table_in, find_col_in.
+    - rewrite data_at_rn. apply wrap_rv.
+  Qed.
+
+  (* Evaluation is equivariant: consistently renaming tables and columns in the schema and in every reference
+     changes no value (records carry the renamed table name). *)
+  Theorem eval_formula_rn : forall fuel self row f,
+    wf_static d self [] f = true ->
+    eval_formula prim1 prim2 fuel (rdoc d) (rn_tab self) row (ren rn_tab rn_col d self [] f)
+    = rr (eval_formula prim1 prim2 fuel d self row f).
+  Proof.
+    intros fuel self row f Hf. unfold eval_formula.
+    destruct (eval_rn_mut rn_tab rn_col prim1 prim2 tab_inj col_inj group_stable prim1_nat prim2_nat d
+                (cell prim1 prim2 d fuel) (cell prim1 prim2 (rdoc d) fuel) (cell_rn fuel) (cell_sound fuel)) as [He _].
+    apply (He f self [] [] row); [|exact Hf]. intros x T v HG. discriminate.
+  Qed.
+End Cells.
